@@ -54,3 +54,20 @@ Definition srange_lim (lim : option N) (m : smap) (start endk : option bytes) (a
   | Some n => if (N.of_nat (length l) <? N.max n 1)%N then (l, false)
               else (firstn (N.to_nat (N.max n 1)) l, true)
   end.
+
+(** Histories that also contain DelKVPair batches (exported by the tree
+    package, not used on the block path). *)
+Inductive op :=
+| OSet (kvs : list (bytes * bytes))
+| ODel (ks : list bytes).
+
+Definition apply_dels (m : smap) (ks : list bytes) : smap :=
+  fold_left (fun m k => sdel k m) ks m.
+
+Definition spec_op (m : smap) (o : op) : smap :=
+  match o with
+  | OSet kvs => apply_writes m kvs
+  | ODel ks => apply_dels m ks
+  end.
+
+Definition state_ops (ops : list op) : smap := fold_left spec_op ops [].
